@@ -145,6 +145,40 @@ def c15_3(ctx, ss):
         if srt:
             ctx.violation("C15.3", ckey(hf, None, "inplace-sort"), where(hf, srt[0]), f"{name} sorts the daughters in place")
     ctx.floor("C15.3", "label-building call sites", n, 2)
+    # every node is registered WITH the label built from its parts (a node without label shows only its internal id)
+    for name, hf in helpers.items():
+        if name == "iterate_chain":
+            continue
+        from ..core.defuse import flow_of as _fo
+        hflow = _fo(ss, hf)
+        for c in [c for c in pf.calls_in(hf.node, nested=False) if txt(c.func) == "self.graph.node"]:
+            lab = call_arg(c, 1, "label")
+            e_ = hflow.expand(lab) if lab is not None else None
+            okl = isinstance(e_, ast.Call) and isinstance(e_.func, ast.Name) and e_.func.id == "html_table_label"
+            (ctx.holds if okl else ctx.violation)("C15.3", ckey(hf, None, "node-label"), where(hf, c),
+                                                  f"{name}: the node carries the label built from its daughters" if okl
+                                                  else f"{name}: the node is registered with label `{txt(e_)[:60] if e_ is not None else None}`: its daughters are not shown")
+    # per case (with / without ports): one cell per name showing that name; ports are written exactly in the tagged case
+    from .common import case_of as _case_of
+    lf0, lflow0 = fn(ss, VIEWER, f"{B}.html_table_label")
+    for tags in (True, False):
+        def atom(e, tags=tags):
+            return tags if txt(e) == "add_tags" else None
+        cf, cflow = _case_of(ss, lf0, lflow0, atom, f"tags={tags}")
+        p0 = cf.params[0]
+        cells = []
+        for js in [x for x in pf.walk_no_nested(cf.node) if isinstance(x, ast.JoinedStr)]:
+            fvs = [cflow.expand(v.value) for v in js.values if isinstance(v, ast.FormattedValue)]
+            shows = [e for e in fvs if any(isinstance(y, ast.Call) and txt(y.func) == "__elem__" and p0 in txt(y) for y in ast.walk(e))
+                     and any(isinstance(y, ast.Call) and txt(y.func) == "safe_html_name" for y in ast.walk(e))]
+            has_port = any(isinstance(v, ast.Constant) and isinstance(v.value, str) and 'PORT="' in v.value for v in js.values)
+            if shows:
+                cells.append(has_port)
+        kc = ckey(lf0, None, f"cells:{'ports' if tags else 'plain'}")
+        okc = len(cells) == 1 and cells[0] == tags
+        (ctx.holds if okc else ctx.violation)("C15.3", kc, where(lf0, lf0.node),
+                                              f"html_table_label(add_tags={tags}): one cell per name showing the name{', with its port' if tags else ''}" if okc
+                                              else f"html_table_label(add_tags={tags}): {len(cells)} cell templates show the names, ports written: {cells} (expected one, with port = {tags})")
     # html_table_label itself iterates in order
     lf, lflow = fn(ss, VIEWER, f"{B}.html_table_label")
     # every iteration that produces cells runs over ALL the names, in order (a for loop or a comprehension; no filter, slice, reordering)
@@ -388,6 +422,14 @@ def c15_5(ctx, ss):
         same = tn is not None and r0.args and isinstance(bflow.expand(r0.args[0]), ast.Constant) and txt(bflow.expand(tn)) == txt(bflow.expand(r0.args[0]))
         ok = uncond and before and bool(same)
         okt = okt and bool(same) and lp_ is None
+    # the root shows the mother: it is registered with the label built from the chain's mother name
+    for rf_, rflow_, rc in [(ff, flow, c) for c in roots_in] + [(bf, bflow, c) for c in roots_out]:
+        lab = call_arg(rc, 1, "label")
+        e_ = rflow_.expand(lab) if lab is not None else None
+        okl = isinstance(e_, ast.Call) and isinstance(e_.func, ast.Name) and e_.func.id == "html_table_label" and e_.args \
+            and txt(e_.args[0]) in ("[next(iter(self._chain.keys()))]", "[next(iter(self._chain))]")
+        (ctx.holds if okl else ctx.violation)("C15.5", ckey(rf_, None, "root-label"), where(rf_, rc),
+                                              "the root node shows the chain's mother" if okl else f"the root node is registered with label `{txt(e_)[:60] if e_ is not None else None}`: the mother is not shown")
     (ctx.holds if ok else ctx.violation)("C15.5", ckey(ff, None, "root"), where(ff, (roots_in or [ff.node])[0]) if roots_in else where(bf, (roots_out or [bf.node])[0]),
                                           "the root node is created exactly once, before any decay line is drawn" if ok else "the root node is not created exactly once, when there is no parent")
     (ctx.holds if okt else ctx.violation)("C15.5", ckey(bf, None, "entry"), where(bf, bf.node),
